@@ -97,6 +97,37 @@ def items_of(it):
     return list(it)
 
 
+def is_item(list_item, obj):
+    """`list_item` (an element read from a list of objects) is the object `obj`.  In proofs symbolic lists of
+    objects hold handles (pyvc.mlist.handle_of); natively this is identity."""
+    return list_item is obj
+
+
+def conj(bools):
+    """all(bools), every operand evaluated (in proofs: a conjunction term, no case split per operand)"""
+    return all(list(bools))
+
+
+def slot(d, k):
+    """the value of key k in a dictionary of lists, () when absent.  (In proofs, for dictionaries with symbolic
+    key presence, the value slot of k: meaningful only together with `k in d`.)"""
+    return d.get(k, ())
+
+
+def snapshot_lists(d):
+    """a copy of a dictionary of lists, the lists copied too"""
+    return {k: list(v) for k, v in d.items()}
+
+
+def all_keys(*dicts):
+    """the keys of the dictionaries, each once, in order of first occurrence (in proofs, for a dictionary with
+    symbolic key presence: its universe of possible keys)"""
+    out = []
+    for d in dicts:
+        for k in d.keys():
+            if k not in out:
+                out.append(k)
+    return out
 def keys_subset(m1, m2):
     """every key of the dict m1 is a key of m2"""
     return all(k in m2 for k in m1)
